@@ -26,18 +26,28 @@ Definition osig_eqb (a b : osig) : bool :=
   | _, _ => false
   end.
 
-Definition obs := (event * list osig * view)%type.
-
-Fixpoint replay (n : N) (self : rid) (agg : bool) (st : vstate) (l : list obs) : bool :=
-  match l with
-  | [] => true
-  | (e, sigs, v) :: r =>
-      let '(st1, out) := step (rr n) self agg st e in
-      list_eqb osig_eqb (map proj out) sigs && N.eqb (cur_view st1) v && replay n self agg st1 r
+(* the leader rotation as it answered when the handler invocation started: a finite table of
+   (view, leader) for the views the invocation can consult; other views map to 0 (no replica) *)
+Fixpoint tbl_leader (t : list (view * rid)) (v : view) : rid :=
+  match t with
+  | [] => 0
+  | (w, l) :: r => if N.eqb w v then l else tbl_leader r v
   end.
 
-(* replicas, own id, aggregate-QC mode, observations *)
-Definition case := (N * rid * bool * list obs)%type.
+(* rotation table, event, observed signatures, view and lastVotedView after the invocation *)
+Definition obs := (list (view * rid) * event * list osig * view * view)%type.
+
+Fixpoint replay (self : rid) (agg : bool) (st : vstate) (l : list obs) : bool :=
+  match l with
+  | [] => true
+  | (t, e, sigs, v, lv) :: r =>
+      let '(st1, out) := step (tbl_leader t) self agg st e in
+      list_eqb osig_eqb (map proj out) sigs && N.eqb (cur_view st1) v && N.eqb (last_voted st1) lv
+      && replay self agg st1 r
+  end.
+
+(* own id, aggregate-QC mode, observations *)
+Definition case := (rid * bool * list obs)%type.
 Definition check_case (c : case) : bool :=
-  let '(n, self, agg, l) := c in replay n self agg init_state l.
+  let '(self, agg, l) := c in replay self agg init_state l.
 Definition mismatches := mismatches_with check_case.
